@@ -549,10 +549,12 @@ impl DeconstructedPat {
                     let data_ty =
                         data_ty_of_variant(statics, enum_def, *idx, enum_ty_args(&self.ty));
 
-                    if !matches!(data_ty, Type::Void) {
-                        vec![data_ty.clone()]
-                    } else {
+                    // same rule as Constructor::arity: only a field declared `void` has no
+                    // column; a generic field instantiated to void keeps its (void) column
+                    if ctor.arity(&[]) == 0 {
                         vec![]
+                    } else {
+                        vec![data_ty.clone()]
                     }
                 }
                 Constructor::Wildcard(_) => {
